@@ -114,8 +114,8 @@ def confirm(pid, k):
         else:
             sh(["git", "checkout", "--", path], cwd=wt)
             sh(["git", "apply", patch], cwd=wt)
-        rc, outb = sh("cargo build --offline --features ffi,cli --all-targets 2>&1 | tail -3", cwd=wt)
-        meta["builds_all_features"] = "Finished" in outb
+        rc, outb = sh("cargo build --offline --features ffi,cli --all-targets 2>&1 | grep -E '^(error|warning: unused)|Finished' | tail -5", cwd=wt)
+        meta["builds_all_features"] = "Finished" in outb and "error" not in outb
         oks, outs = run_tests(wt, "suite")
         meta["existing_suite_passes_with_change"] = bool(oks)
         meta["existing_suite_tail"] = outs[-400:]
